@@ -817,18 +817,25 @@ impl<'a> LineBreaker<'a> {
                                     }
                                 }
                             }
-                            Math(_math) => {
-                                // TODO when math node is fixed in boxworks crate.
-                            }
-                            Glue(glue) => {
-                                diffs.update_from_glue(&glue.value);
-                            }
-                            Kern(kern) => {
-                                if kern.kind == ds::KernKind::Explicit {
-                                    diffs.width -= kern.width;
+                            _ => {
+                                // The nodes that are discarded after a break
+                                // are not part of the next line.
+                                for elem in &list[i..] {
+                                    match elem {
+                                        Math(_math) => {
+                                            // TODO when math node is fixed in boxworks crate.
+                                        }
+                                        Glue(glue) => {
+                                            diffs.update_from_glue(&glue.value);
+                                        }
+                                        Penalty(_) => {}
+                                        Kern(kern) if kern.kind == ds::KernKind::Explicit => {
+                                            diffs.width += kern.width;
+                                        }
+                                        _ => break,
+                                    }
                                 }
                             }
-                            _ => {}
                         }
                     }
                     for fitness_class in [
